@@ -300,6 +300,9 @@ def run(ck):
     gen.append("Definition iter_state : list iter_row :=\n  %s." % coq_list(
         ["(%s, %s, %s)" % (coq_str(r["cls"]), coq_list([coq_str(x) for x in r["modified"]]), coq_list([coq_str(x) for x in r["reset"]]))
          for r in d.get("iter_state", [])]))
+    gen.append("Definition parsers : list parser_row :=\n  %s." % coq_list(
+        ["(%s, %s, %s)" % (coq_str(r["func"]), coq_str(r["ctor"]), coq_list([coq_str(x) for x in r["lax"]]))
+         for r in d.get("parsers", [])]))
     g = ck.gen_v("Gen_C08.v", "\n".join(gen) + "\n")
     ok, out = ck.coqc(g)
     ck.oblige("Gen_C08.v:compiles", ok, out[-1500:], kind="translate")
@@ -321,6 +324,11 @@ def run(ck):
                                            "Lemma iter_state_ok : iter_ok iter_state = true.\nProof. vm_compute. reflexivity. Qed.\n"),
                                   kind="instance")
     inst_ok[("document iterators", "rewind")] = k
+    k, _ = ck.compile_obligations(ck.gen_v("Inst_C08_parser_strict.v", HEADER + "From Run Require Import Gen_C08.\n"
+                                           "Lemma parser_strict_ok : parser_strict parsers = true.\nProof. vm_compute. reflexivity. Qed.\n"),
+                                  kind="instance")
+    inst_ok[("xml parsers", "strict")] = k
+    ck.extra["xml_parser_constructions"] = d.get("parsers", [])
     ck.extra["document_iterators"] = d.get("iter_state", [])
     missing = [n for n in d.get("expected", []) if n not in entries]
     all_ok = all(inst_ok.values()) and not missing and not d["untranslatable"]
@@ -328,6 +336,7 @@ def run(ck):
         inst = ck.gen_v("Inst_C08.v", HEADER + "From LNML Require Import Proofs.ResourceP.\nFrom Run Require Import Gen_C08.\n"
                         "Lemma all_ok : forallb entry_ok entries = true.\nProof. vm_compute. reflexivity. Qed.\n"
                         "Lemma iter_state_ok : iter_ok iter_state = true.\nProof. vm_compute. reflexivity. Qed.\n"
+                        "Lemma parser_strict_ok : parser_strict parsers = true.\nProof. vm_compute. reflexivity. Qed.\n"
                         "Lemma all_present : map fst (map fst entries) = %s.\nProof. reflexivity. Qed.\n"
                         % coq_list([coq_str(n + ":" + m) for n, m in allmodes]))
         iok, _ = ck.compile_obligations(inst, kind="instance")
@@ -343,7 +352,16 @@ def run(ck):
         ck.compile_obligations(gp, kind="theorem")
     # ---------------------------------------------------------------- real runs
     ops = gen_ops(ck)
-    trunc = [{"doc": gen_doc(ck.rng, rich=False), "offsets": ck.n(11, "all")} for _ in range(ck.n(1, 6))]
+    # truncation: non-ASCII text (2-, 3- and 4-byte UTF-8 characters), entity references; every second file also gets the
+    # token classes our writer never emits (XML declaration, comment, CDATA, numeric character references).  Quick tier:
+    # stride + EVERY byte inside every multi-byte character + every byte of the first/second/last/non-ASCII instance of
+    # every token class; thorough: every byte.
+    trunc = []
+    for i in range(ck.n(2, 6)):
+        dd = gen_doc(ck.rng, rich=False)
+        aug = i % 2 == 1
+        dd["notes"] = "size 5 \u00b5m, cost 3 \u20ac, rate \U0001d6fc; a&b <c> caf\u00e9" + (" @@CD@@ @@NC@@" if aug else "")
+        trunc.append({"doc": dd, "offsets": ck.n(11, "all"), "augment": aug})
     res = run_impl(ck, ops, trunc)
     cases = []  # (coq text, python description)
     for o in res["ops"]:
@@ -451,9 +469,15 @@ def run(ck):
         ck.count(t["offsets"], nontrivial_key=["truncate", t["size"], t["offsets"]])
         ck.tally("truncation_offsets", t["offsets"])
         ck.tally("truncation_rejected", t["rejected"])
+        for cname, n in t.get("class_offsets", {}).items():
+            ck.tally("truncation_inside:" + cname, n)
+        ck.extra.setdefault("truncation_multibyte_sizes", [])
+        ck.extra["truncation_multibyte_sizes"] = sorted(set(ck.extra["truncation_multibyte_sizes"]) | set(t.get("multibyte_sizes", [])))
         for b in t["bad"]:
-            ck.witness("C08:truncated-xml-accepted", "an XML file cut at byte %d of %d is loaded (%s)" % (b["offset"], b["of"], b["via"]),
-                       input={"doc": t["doc"], "offset": b["offset"]}, expected="rejected", observed=b["loaded"],
+            ck.witness("C08:truncated-xml-accepted", "an XML file cut at byte %d of %d%s is loaded (%s)"
+                       % (b["offset"], b["of"], " (inside a multi-byte character)" if b.get("inside_multibyte_character") else "", b["via"]),
+                       input={"doc": t["doc"], "offset": b["offset"], "augment": t.get("augment", False), "around": b.get("around")},
+                       expected="rejected", observed=b["loaded"],
                        broken="Props_C08.v:C08_trunc")
         toks = coq_list(["(%s %s)" % ({"O": "TOpen", "C": "TClose", "T": "TText"}[k], coq_str(v)) for k, v in t["tokens"]])
         cuts = coq_list(["(%d, %s)" % (n, "true" if rej else "false") for n, rej in t["token_cuts"]])
@@ -500,7 +524,7 @@ def replay(ck, data):
             bad = bad or any(r.get("fired") and not r.get("raised") for r in recs)
         return 1 if bad else 0
     if "offset" in inp:
-        res = ck.impl("c08_impl.py", {"truncate": [{"doc": inp["doc"], "offsets": "all"}]})
+        res = ck.impl("c08_impl.py", {"truncate": [{"doc": inp["doc"], "offsets": "all", "augment": inp.get("augment", False)}]})
         print(json.dumps({"stored": inp, "now": {k: v for k, v in res["truncate"][0].items() if k not in ("tokens", "token_cuts")}},
                          indent=1)[:6000])
         return 1 if res["truncate"][0].get("nbad") else 0
